@@ -174,6 +174,18 @@ class Check(Property):
             if e1 or e2:
                 v.append(f"C05 inside the active context {ctx!r}: {qa!r} == {qb!r} is {e1} / {e2} although the dimensionalities differ "
                          f"(ordering them raises DimensionalityError, the hashes differ)")
+            # ... and ordering them is refused inside the context exactly as outside it
+            import operator as _op
+            for name, op in (("<", _op.lt), ("<=", _op.le), (">", _op.gt), (">=", _op.ge)):
+                for x_, y_ in ((qa, qb), (qb, qa)):
+                    with u.context(ctx):
+                        try:
+                            got = ("ok", bool(op(x_, y_)))
+                        except Exception as exc:  # noqa: BLE001
+                            got = ("err", type(exc).__name__)
+                    if got != ("err", "DimensionalityError"):
+                        v.append(f"C05 inside the active context {ctx!r}: {x_!r} {name} {y_!r} gives {got}; quantities of different dimensionality "
+                                 f"are not ordered (DimensionalityError)")
         # two quantities in the SAME unit are ordered like their magnitudes, however close (no detour through another unit)
         import math
         for unit in ("inch", "percent", "mile", "pound", "hour", "degree"):
